@@ -186,6 +186,11 @@ var vGZInits [2]int
 func (z *vGZ1) Init() error { vGZInits[0]++; return nil }
 func (z *vGZ2) Init() error { vGZInits[1]++; return nil }
 
+// the same eager post-processor component, but ordered ahead of the built-in processors
+type vGProcEarly struct{ vGProc }
+
+func (p *vGProcEarly) Order() int { return -100 }
+
 type vGRunner struct {
 	g *vG
 	D *vGD `wire:""`
@@ -242,7 +247,13 @@ func VerifAppGraph() {
 		d.ByName = &vGC{g: g}
 		nd.Cover("a by-name point holding a built-in default before start-up")
 	}
-	comps := []any{a, b, d, lazy, run, proc, win, lose, &vGZ1{}, &vGZ2{}, l1, l2}
+	var procComp any = proc
+	early := nd.Param("EARLYPROC", 0) == 1
+	if early {
+		// listed finding class (C09): a user post-processor ordered before the built-in wiring processors
+		procComp = &vGProcEarly{vGProc{g: g}}
+	}
+	comps := []any{a, b, d, lazy, run, procComp, win, lose, &vGZ1{}, &vGZ2{}, l1, l2}
 	if withC {
 		comps = append(comps, c)
 	}
@@ -298,7 +309,13 @@ func VerifAppGraph() {
 	nd.Assert(a.C == c && b.C == c, "C01: both holders of a diamond see one instance")
 	nd.Assert(d.A == vSvc(a) && d.ByName == vSvc(c), "C07: by-name points receive exactly the named component")
 	nd.Assert(a.Self == nil || a.Self == vSvc(a), "C02: a by-name point naming its own holder is never wired to anything else")
-	nd.Assert(proc.C == c && proc.inited && proc.cAtInit, "C05: an eager post-processor component is populated before its own Init, like any other component")
+	if early {
+		pe := procComp.(*vGProcEarly)
+		nd.Known("C09/early-ordered-processor-not-wired", true)
+		nd.Assert(pe.C == c && pe.inited && pe.cAtInit, "C05: an eager post-processor component is populated before its own Init, whatever its Order")
+	} else {
+		nd.Assert(proc.C == c && proc.inited && proc.cAtInit, "C05: an eager post-processor component is populated before its own Init, like any other component")
+	}
 	nd.Assert(b.Blue == vSvc(c), "C08: only the component with the requested qualifier is injected")
 	nd.Assert(b.Pick == vSvc(a) || b.Pick == vSvc(c), "C06: a single-valued interface point receives one of the other implementers, never its holder")
 	if withOpt {
